@@ -313,6 +313,17 @@ int main()
             Cell *c = op == "topi" ? grid.topInternal() : grid.topExternal();
             fin(c ? idStr(c) : std::string("none"));
         }
+        else if ((op == "rmtopi" || op == "rmtope") && t.size() == 1)
+        {
+            if (grid.size() == 0) { fin("none"); continue; }
+            Cell *c = op == "rmtopi" ? grid.topInternal() : grid.topExternal();
+            if (!c) { fin("none"); continue; }
+            std::string id = idStr(c);
+            grid.remove(c);
+            idOf.erase(c);
+            grid.destroyCell(c);
+            fin("c=" + id);
+        }
         else if (op == "clear" && t.size() == 1)
         {
             grid.clear();
